@@ -108,6 +108,11 @@ def case_fold_basis(col, p):
         mask = np.zeros(shape, bool)
         for i in combo:
             mask[i] = True
+        # the same entries masked with the corners left unmasked (monomorphic classes kept): the mask union is the same rule
+        fr = dadi.Spectrum(dense.copy(), mask=mask.copy(), mask_corners=False).fold()
+        col.tick(transitions=1)
+        rdr, rmr = RS.fold(RS.fr_array(dense), mask)
+        _cmp(col, 'C09:fold_masked', dict(p, masked=combo, corners='unmasked'), fr, rdr, _corner_conv(rmr), True, data_everywhere=True)
         mask = _corner_conv(mask)
         fs = dadi.Spectrum(dense.copy(), mask=mask.copy(), mask_corners=False)
         f = fs.fold()
